@@ -284,6 +284,57 @@ func (s *WSim) Directed() {
 	s.OpRemoveSpent(a)
 }
 
+// DirectedRotation: the mint rotates its keyset while no wallet is looking (same fee rate); the first
+// thing a wallet does after that is, in turn, a plain send, a locked send, a melt, a funding and a
+// receive — one rotation before each, so that each kind of operation is once the first one to meet a
+// keyset the loaded wallet has not seen.
+func (s *WSim) DirectedRotation() {
+	if len(s.W.Wallets) < 2 {
+		return
+	}
+	a, b := s.W.Wallets[0], s.W.Wallets[1]
+	if a.W == nil || b.W == nil {
+		return
+	}
+	url := a.DefaultURL
+	m := s.W.MintByURL(url)
+	if m == nil || s.OpFund(a, 300, url) != nil {
+		return
+	}
+	rot := func() bool {
+		fee := uint(0)
+		if act := m.Env.Active(); act != nil {
+			fee = uint(act.Fee)
+		}
+		err := m.Env.Rotate(fee)
+		s.logf("mint %s rotates keyset (fee %d, directed) -> %s", m.Env.Name, fee, errS(err))
+		s.done("rotate", nil, err)
+		return err == nil
+	}
+	var held []*HeldToken
+	if rot() {
+		if ht, err := s.OpSend(a, 9, url, false); err == nil && ht != nil {
+			held = append(held, ht)
+		}
+	}
+	if rot() {
+		if ht, err := s.OpSendP2PKFlag(a, b, 10, url, false, false); err == nil && ht != nil {
+			held = append(held, ht)
+		}
+	}
+	if rot() {
+		s.OpMelt(a, 20, url, lnmodel.PayPlan{Answer: lnmodel.ASucceeded})
+	}
+	if rot() {
+		s.OpFund(a, 50, url)
+	}
+	if rot() {
+		for _, ht := range held {
+			s.OpReceive(b, ht, false)
+		}
+	}
+}
+
 // DirectedUnknownMint: a wallet that has never seen mint 0 receives a SIG_ALL P2PK token of that
 // mint with swap to its trusted mint (the path on which outputs for a keyset the wallet has not
 // stored are made). The wallet is created for the occasion and closed afterwards.
